@@ -69,17 +69,20 @@ def unit_lanes(closed_at_zero=False, open_at_one=False):
     return u, v, dom
 
 
+THI = ir.var('theta_int', 'I')          # a theta stored as a Python / numpy integer (e.g. read back from JSON)
+
+
 def run_method(fam, method, closed_at_zero=False, open_at_one=False, safety=True, extra_req=(), I=None,
-               args='X', havoc=True, theta_req=True):
+               args='X', havoc=True, theta_req=True, theta_term=None):
     """symbolically execute  <family>.<method>(X)  over all paths.
     returns (I, results, ctx): each result has .pc, .value (Lane/Sym/exception), .obligations (safety)."""
     I = I or engine.new_interp()
 
     def body(c):
-        obj = make_copula(I, fam, c, havoc=havoc)
+        obj = make_copula(I, fam, c, havoc=havoc) if theta_term is None else make_copula(I, fam, c, theta=theta_term, havoc=havoc)
         u, v, dom = unit_lanes(closed_at_zero, open_at_one)
         if theta_req:
-            c.assume(FAMILIES[fam]['theta'](TH))
+            c.assume(FAMILIES[fam]['theta'](TH if theta_term is None else theta_term))
         c.assume(dom)
         for r in extra_req:
             c.assume(r)
